@@ -678,6 +678,26 @@ theorem slice_length {α : Type} (xs : List α) (start stop : Option Int) (step 
 
 
 
+/-! ### the sequence `|chain` builds (`MergeSeq`) -/
+
+/-- a chained sequence answers every subscript like the plain list of its concatenated operands
+    (empty operands at the head, in the middle or at the tail included) — hence like Python's
+    `list(chain(...))[i]` by `getItemOpt_eq_python` -/
+theorem mergeGetItem_eq_concat {α : Type} (xss : List (List α)) (key : Val α) :
+    (mergeGetItem xss key).map Item.elem = getItemOpt (Val.seq xss.flatten) key := by
+  have hlen : (xss.map List.length).sum = xss.flatten.length := by rw [List.length_flatten]
+  simp only [mergeGetItem, getItemOpt, obj_seq, if_true, hlen, vecGet]
+  cases indexOf key (some xss.flatten.length) with
+  | some idx => simp only [mergeGet_eq_concat_index]
+  | none =>
+    cases valUsize key with
+    | some n => simp only [mergeGet_eq_concat_index]
+    | none => rfl
+
+example : mergeGetItem [[], [10, 20]] (Val.num (.i64 0) : Val Nat) = some 10 ∧
+    mergeGetItem [[], [10, 20], []] (Val.num (.i64 (-2)) : Val Nat) = some 10 ∧
+    mergeGetItem [[], [10, 20]] (Val.num (.i64 2) : Val Nat) = Option.none := by decide
+
 /-! ### strings are UTF-8 bytes; the engine's cursor-based code works on characters -/
 
 /-- every scalar value takes 1–4 bytes; the `Chars` cursor over the bytes of a string holding `cs`
